@@ -9,6 +9,34 @@ use rand::Rng;
 /// assert_eq!(vector.len(), 128);
 /// ```
 pub fn random(size: usize) -> Vec<u8> {
+    #[cfg(rdp_rs_verif)]
+    {
+        if let Some(preset) = verif::take(size) {
+            return preset;
+        }
+    }
     let mut rng = rand::thread_rng();
     (0..size).map(|_| rng.gen()).collect()
+}
+
+/// Verification hook: a per-thread queue of preset bytes that `random` hands out before
+/// falling back to the real generator. Compiled only with `--cfg rdp_rs_verif`.
+#[cfg(rdp_rs_verif)]
+pub mod verif {
+    use std::cell::RefCell;
+    use std::collections::VecDeque;
+    thread_local! {
+        static PRESET: RefCell<VecDeque<u8>> = RefCell::new(VecDeque::new());
+    }
+    /// Replace the queue of preset bytes
+    pub fn preset(bytes: &[u8]) {
+        PRESET.with(|p| { let mut p = p.borrow_mut(); p.clear(); p.extend(bytes.iter().cloned()); });
+    }
+    /// Next `size` preset bytes, if that many are queued
+    pub fn take(size: usize) -> Option<Vec<u8>> {
+        PRESET.with(|p| {
+            let mut p = p.borrow_mut();
+            if p.len() >= size && size > 0 { Some(p.drain(..size).collect()) } else { None }
+        })
+    }
 }
